@@ -119,6 +119,37 @@ class Sim:
             if mine:
                 self.pend = [p for p in self.pend if p["exec"] != mine[0]["exec"]]
 
+    def reload(self, c):
+        s = self.next_serial(c)
+        self.emit("Z.%d.%d" % (c, s))
+
+    def set_services(self, services):
+        """the service directory is changed to hold exactly these files"""
+        self.svc = {}
+        for n, x, kind in services:
+            self.svc.setdefault(n, (x, kind))
+        self.emit("V." + (",".join("%s:%d:%d" % (n, x, kind) for n, x, kind in services) or "-"))
+
+    def services(self):
+        return [(n, x, k) for n, (x, k) in self.svc.items()]
+
+    def churn(self, rnd):
+        """install or remove one .service file; what is pending must not care"""
+        cur = self.services()
+        r = rnd.random()
+        pend_names = [p["name"] for p in self.pend]
+        if cur and r < 0.45:
+            victim = rnd.choice([s for s in cur if s[0] in pend_names] or cur) if rnd.random() < 0.6 else rnd.choice(cur)
+            cur = [s for s in cur if s != victim]
+        else:
+            absent = [n for n in ("w1", "w2", "w3", "w4") if n not in self.svc]
+            if absent:
+                n = rnd.choice(absent)
+                cur = cur + [(n, int(n[1:]) + 10, 1)]
+            elif cur:
+                cur = cur[1:]
+        self.set_services(cur)
+
     def tick(self):
         self.emit("T")
         dead = []
@@ -168,6 +199,12 @@ def gen_history(rnd, flavour="plain", length=None):
             s.tick()
             ticks += 1
             continue
+        if live and rnd.random() < (0.12 if s.pend else 0.03):
+            if rnd.random() < 0.6:
+                s.reload(rnd.choice(live))
+            else:
+                s.churn(rnd)
+            continue
         if not local or (r < 0.06 and len(local) < 5):
             s.connect()
         elif r < 0.36:
@@ -213,7 +250,7 @@ def gen_history(rnd, flavour="plain", length=None):
     if rnd.random() < 0.6:
         # probes: what a fresh caller is told about every name shows which activations are still pending
         c = s.connect()
-        for n in sorted(set(n for n, _, _ in services)):
+        for n in sorted(set(n for n, _, _ in services) | set(s.svc)):
             s.start(c, n)
     return maxp, services, timed, s.events
 
@@ -245,6 +282,14 @@ def gen_burst(rnd):
             s.disconnect(rnd.choice(live))
         else:
             s.connect()
+    # the configuration is reloaded / the service directory changes while the callers wait
+    for _ in range(rnd.choice((0, 1, 1, 2))):
+        if s.live() and rnd.random() < 0.6:
+            s.reload(rnd.choice(s.live()))
+        else:
+            s.churn(rnd)
+        if rnd.random() < 0.3 and s.live():
+            s.send(rnd.choice(s.live()), rnd.choice(targets), 0)
     # resolve what is pending, oldest first or newest first
     pend = list(s.pend)
     if rnd.random() < 0.3:
@@ -310,6 +355,13 @@ def scenarios():
     # timeouts: everybody waiting is told once; a process that connected but never took the name is killed
     S.append(("timeout", 50, two, True, "C C A.0.1.w1.0 S.1.1.w1 A.1.2.w2.0 K.0 R.2.1.2 T D.2 A.0.2.w1.0 S.1.3.w2".split()))
     S.append(("timeout-exit0", 50, two, True, "C A.0.1.w1.0 X.0.0 S.0.2.w1 T S.0.3.w1".split()))
+    # a reload of the configuration (ReloadConfig; a .service file installed or removed) between the start and its resolution
+    S.append(("reload-then-name", 50, two, False, "C C C A.0.1.w1.0 S.1.1.w1 A.0.2.w1.0 Z.2.1 A.1.2.w1.0 K.0 R.3.1.1 A.0.3.w1.0".split()))
+    S.append(("reload-then-fail", 50, two, False, "C C A.0.1.w1.0 S.1.1.w1 Z.0.2 X.0.1 A.0.3.w1.0".split()))
+    S.append(("reload-then-timeout", 50, two, True, "C C A.0.1.w1.0 S.1.1.w2 Z.1.2 T A.0.2.w1.0 S.1.3.w2".split()))
+    S.append(("file-removed-while-pending", 50, two, False, "C C A.0.1.w1.0 S.1.1.w1 V.w2:2:1 A.1.2.w1.0 S.0.2.w1 K.0 R.2.1.1 A.0.3.w1.0 D.2 A.0.4.w1.0".split()))
+    S.append(("file-added-while-pending", 50, [("w1", 1, 1)], False, "C C A.0.1.w1.0 A.1.1.w2.0 V.w1:1:1,w2:2:1 A.1.2.w2.0 A.0.2.w1.0 K.0 R.2.1.1 K.1 R.3.1.2".split()))
+    S.append(("reload-twice", 50, same, False, "C C A.0.1.w1.0 A.1.1.w2.0 Z.0.2 V.w1:1:1 Z.1.2 K.1 R.2.1.2 X.0.2".split()))
     return S
 
 
